@@ -35,8 +35,9 @@ theorem notifyRecv_same (x : Stream) : Same x x.notifyRecv.1 := by
 theorem notifyPush_same (x : Stream) : Same x x.notifyPush.1 := by
   unfold Stream.notifyPush; split <;> same_fields
 
-theorem notifyCapacity_same (x : Stream) : Same x x.notifyCapacity.1 :=
-  Same.trans (b := { x with sendCapacityInc := true }) (by same_fields) (notifySend_same _)
+theorem notifyCapacity_same (x : Stream) : Same x x.notifyCapacity.1 := by
+  unfold Stream.notifyCapacity
+  exact Same.trans (b := { x with sendCapacityInc := true }) (by same_fields) (notifySend_same _)
 
 theorem assignCapacity_same (x : Stream) (a b : Nat) : Same x (x.assignCapacity a b).1 := by
   unfold Stream.assignCapacity; simp only []; split
